@@ -1,0 +1,408 @@
+//! C04 adapter: a real [`Substream`] (TCP flavour) on both ends of an in-memory yamux connection,
+//! behind the line protocol.
+//!
+//! The writer is the client's outbound yamux stream, the reader the server's inbound one (it exists
+//! once the first bytes arrived). The yamux connections are driven by two background tasks on a
+//! current-thread runtime without time or IO drivers. The writer is polled ONLY by writer
+//! operations (`send`, `flush`, `raw`, `close`, and the background `send_framed` future while one is
+//! in progress); `recv` polls only the reader. Every operation ends when the whole system is
+//! quiescent (no byte counter moved during several consecutive scheduler turns), never on
+//! wall-clock time.
+//!
+//! Every observation ends with ` w=<n>`: the number of bytes the writer's carrier accepted during
+//! the operation (from the real `BandwidthSink`).
+//!
+//! Operations:
+//!   codec identity <n> | codec varint <max|none>   [pipe=<bytes>]
+//!   send sink <len> <fill>       one `poll_ready`, then `start_send`   -> ok | refused | notready | err
+//!   flush                        one `poll_flush`                      -> ready | pending | err
+//!   send framed <len> <fill>     `send_framed` as a background future  -> ok | refused | err | pending
+//!   wait                         outcome of the background future      -> ok | refused | err | pending | idle
+//!   raw <hex>                    bytes written to the carrier unframed -> ok
+//!   writer_stop                  all later writer operations answer `stopped`
+//!   close                        one `poll_close`                      -> ok | pending | err
+//!   recv                         `poll_next` until a result or quiescence
+//!                                -> frame <len> <first> <sum> | err <class> | eof | pending
+
+use super::Substream;
+use crate::{
+    codec::ProtocolCodec, error::SubstreamError, transport::tcp, types::SubstreamId,
+    verif::{kv, peer, unhex, VerifBox},
+    BandwidthSink,
+};
+
+use bytes::Bytes;
+use futures::{future::poll_fn, Sink, Stream};
+use tokio::io::{AsyncRead, AsyncWrite, AsyncWriteExt, ReadBuf};
+use tokio_util::compat::{FuturesAsyncReadCompatExt, TokioAsyncReadCompatExt};
+
+use std::{
+    io,
+    pin::Pin,
+    sync::{
+        atomic::{AtomicUsize, Ordering},
+        Arc,
+    },
+    task::{Context, Poll},
+};
+
+/// Wrap one end of an in-memory yamux stream into the real `Substream` (TCP flavour).
+pub(crate) fn wrap_tcp(
+    stream: crate::yamux::Stream,
+    codec: ProtocolCodec,
+    index: u64,
+    sink: BandwidthSink,
+) -> Substream {
+    Substream::new_tcp(
+        peer(index),
+        SubstreamId::from(index as usize),
+        tcp::Substream::new(FuturesAsyncReadCompatExt::compat(stream), sink, None),
+        codec,
+    )
+}
+
+/// One end of the in-memory pipe under yamux, counting the bytes that pass.
+struct CountingPipe {
+    io: tokio::io::DuplexStream,
+    moved: Arc<AtomicUsize>,
+}
+
+impl AsyncRead for CountingPipe {
+    fn poll_read(
+        mut self: Pin<&mut Self>,
+        cx: &mut Context<'_>,
+        buf: &mut ReadBuf<'_>,
+    ) -> Poll<io::Result<()>> {
+        let before = buf.filled().len();
+        let res = Pin::new(&mut self.io).poll_read(cx, buf);
+        self.moved.fetch_add(buf.filled().len() - before, Ordering::Relaxed);
+        res
+    }
+}
+
+impl AsyncWrite for CountingPipe {
+    fn poll_write(
+        mut self: Pin<&mut Self>,
+        cx: &mut Context<'_>,
+        buf: &[u8],
+    ) -> Poll<io::Result<usize>> {
+        let res = Pin::new(&mut self.io).poll_write(cx, buf);
+        if let Poll::Ready(Ok(n)) = &res {
+            self.moved.fetch_add(*n, Ordering::Relaxed);
+        }
+        res
+    }
+
+    fn poll_flush(mut self: Pin<&mut Self>, cx: &mut Context<'_>) -> Poll<io::Result<()>> {
+        Pin::new(&mut self.io).poll_flush(cx)
+    }
+
+    fn poll_shutdown(mut self: Pin<&mut Self>, cx: &mut Context<'_>) -> Poll<io::Result<()>> {
+        Pin::new(&mut self.io).poll_shutdown(cx)
+    }
+}
+
+type FramedResult = (Substream, Result<(), SubstreamError>);
+
+enum Writer {
+    Idle(Substream),
+    Busy(tokio::task::JoinHandle<FramedResult>),
+    Gone,
+}
+
+struct Pair {
+    codec: ProtocolCodec,
+    writer: Writer,
+    reader: Option<Substream>,
+    inbound: tokio::sync::mpsc::UnboundedReceiver<crate::yamux::Stream>,
+    moved: Arc<AtomicUsize>,
+    wsink: BandwidthSink,
+    rsink: BandwidthSink,
+    stopped: bool,
+}
+
+pub struct SubstreamBox {
+    // declared before the runtime: dropped first
+    pair: Option<Pair>,
+    rt: tokio::runtime::Runtime,
+}
+
+fn err_class(e: &SubstreamError) -> String {
+    match e {
+        SubstreamError::ReadFailure(_) => "read-failure".into(),
+        SubstreamError::WriteFailure(_) => "write-failure".into(),
+        SubstreamError::ConnectionClosed => "closed".into(),
+        SubstreamError::IoError(kind) => format!("io-{kind:?}"),
+        _ => "other".into(),
+    }
+}
+
+impl SubstreamBox {
+    pub fn new() -> Self {
+        Self {
+            pair: None,
+            rt: tokio::runtime::Builder::new_current_thread().build().expect("runtime"),
+        }
+    }
+
+    fn open(&mut self, codec: ProtocolCodec, pipe: usize) {
+        self.pair = None;
+        let pair = self.rt.block_on(async {
+            let (a, b) = tokio::io::duplex(pipe);
+            let moved = Arc::new(AtomicUsize::new(0));
+            let a = CountingPipe { io: a, moved: moved.clone() };
+            let b = CountingPipe { io: b, moved: moved.clone() };
+            let mut cfg = crate::yamux::Config::default();
+            // keep the per-stream window at the protocol default (no RTT-based growth)
+            cfg.set_max_num_streams(2);
+            cfg.set_max_connection_receive_window(Some(2 * crate::yamux::DEFAULT_CREDIT as usize));
+            let mut ca =
+                crate::yamux::Connection::new(a.compat(), cfg.clone(), crate::yamux::Mode::Client);
+            let mut cb = crate::yamux::Connection::new(b.compat(), cfg, crate::yamux::Mode::Server);
+            let out = poll_fn(|cx| ca.poll_new_outbound(cx)).await.expect("outbound stream");
+            tokio::spawn(async move {
+                while let Some(Ok(_)) = poll_fn(|cx| ca.poll_next_inbound(cx)).await {}
+            });
+            let (tx, rx) = tokio::sync::mpsc::unbounded_channel();
+            tokio::spawn(async move {
+                while let Some(Ok(s)) = poll_fn(|cx| cb.poll_next_inbound(cx)).await {
+                    let _ = tx.send(s);
+                }
+            });
+            let wsink = BandwidthSink::new();
+            let rsink = BandwidthSink::new();
+            Pair {
+                codec,
+                writer: Writer::Idle(wrap_tcp(out, codec, 1, wsink.clone())),
+                reader: None,
+                inbound: rx,
+                moved,
+                wsink,
+                rsink,
+                stopped: false,
+            }
+        });
+        self.pair = Some(pair);
+    }
+
+    fn progress(p: &Pair) -> usize {
+        p.moved.load(Ordering::Relaxed) + p.wsink.outbound() + p.rsink.inbound()
+    }
+
+    /// Let the background tasks run until no byte counter moved for 16 consecutive turns.
+    fn settle(&mut self) {
+        let p = self.pair.as_ref().expect("pair");
+        self.rt.block_on(async {
+            let mut idle = 0;
+            let mut turns = 0usize;
+            while idle < 16 && turns < 1_000_000 {
+                let before = Self::progress(p);
+                tokio::task::yield_now().await;
+                turns += 1;
+                if Self::progress(p) == before {
+                    idle += 1
+                } else {
+                    idle = 0
+                }
+            }
+        });
+    }
+
+    /// If the background `send_framed` finished, take the substream back; returns its outcome.
+    fn reap(&mut self) -> Option<Result<(), SubstreamError>> {
+        let p = self.pair.as_mut().expect("pair");
+        let finished = matches!(&p.writer, Writer::Busy(h) if h.is_finished());
+        if !finished {
+            return None;
+        }
+        let Writer::Busy(h) = std::mem::replace(&mut p.writer, Writer::Gone) else { unreachable!() };
+        match self.rt.block_on(h) {
+            Ok((substream, res)) => {
+                self.pair.as_mut().expect("pair").writer = Writer::Idle(substream);
+                Some(res)
+            }
+            Err(e) => match e.try_into_panic() {
+                Ok(payload) => std::panic::resume_unwind(payload),
+                Err(_) => panic!("send_framed task cancelled"),
+            },
+        }
+    }
+
+    fn outcome(res: Result<(), SubstreamError>) -> String {
+        match res {
+            Ok(()) => "ok".into(),
+            Err(SubstreamError::IoError(io::ErrorKind::PermissionDenied)) => "refused".into(),
+            Err(e) => format!("err {}", err_class(&e)),
+        }
+    }
+
+    fn writer_op(&mut self, t: &[&str]) -> String {
+        {
+            let p = self.pair.as_ref().expect("pair");
+            if p.stopped {
+                return "stopped".into();
+            }
+        }
+        if t != ["wait"] {
+            match &self.pair.as_ref().expect("pair").writer {
+                Writer::Busy(_) => return "busy".into(),
+                Writer::Gone => return "gone".into(),
+                Writer::Idle(_) => {}
+            }
+        }
+        let rt = &self.rt;
+        let p = self.pair.as_mut().expect("pair");
+        match t {
+            ["wait"] => {
+                if let Writer::Idle(_) = p.writer {
+                    return "idle".into();
+                }
+                self.settle();
+                match self.reap() {
+                    Some(res) => Self::outcome(res),
+                    None => "pending".into(),
+                }
+            }
+            ["send", "sink", len, fill] => {
+                let (len, fill) = (len.parse::<usize>().expect("len"), fill.parse::<u8>().expect("fill"));
+                let Writer::Idle(w) = &mut p.writer else { unreachable!() };
+                let item = Bytes::from(vec![fill; len]);
+                let ready = rt.block_on(poll_fn(|cx| Poll::Ready(Sink::<Bytes>::poll_ready(Pin::new(&mut *w), cx))));
+                match ready {
+                    Poll::Pending => "notready".into(),
+                    Poll::Ready(Err(e)) => format!("err {}", err_class(&e)),
+                    Poll::Ready(Ok(())) => Self::outcome(Sink::<Bytes>::start_send(Pin::new(&mut *w), item)),
+                }
+            }
+            ["flush"] => {
+                let Writer::Idle(w) = &mut p.writer else { unreachable!() };
+                match rt.block_on(poll_fn(|cx| Poll::Ready(Sink::<Bytes>::poll_flush(Pin::new(&mut *w), cx)))) {
+                    Poll::Pending => "pending".into(),
+                    Poll::Ready(Ok(())) => "ready".into(),
+                    Poll::Ready(Err(e)) => format!("err {}", err_class(&e)),
+                }
+            }
+            ["close"] => {
+                let Writer::Idle(w) = &mut p.writer else { unreachable!() };
+                match rt.block_on(poll_fn(|cx| Poll::Ready(Sink::<Bytes>::poll_close(Pin::new(&mut *w), cx)))) {
+                    Poll::Pending => "pending".into(),
+                    Poll::Ready(Ok(())) => "ok".into(),
+                    Poll::Ready(Err(e)) => format!("err {}", err_class(&e)),
+                }
+            }
+            ["raw", hex] => {
+                let bytes = unhex(hex);
+                let Writer::Idle(w) = &mut p.writer else { unreachable!() };
+                // small, so the carrier takes it at once; bounded in any case
+                let res = rt.block_on(async {
+                    let mut fut = Box::pin(async {
+                        w.write_all(&bytes).await?;
+                        w.flush().await
+                    });
+                    for _ in 0..10_000 {
+                        if let Poll::Ready(r) = futures::poll!(fut.as_mut()) {
+                            return Some(r);
+                        }
+                        tokio::task::yield_now().await;
+                    }
+                    None
+                });
+                match res {
+                    Some(Ok(())) => "ok".into(),
+                    Some(Err(e)) => format!("err io-{:?}", e.kind()),
+                    None => "pending".into(),
+                }
+            }
+            ["send", "framed", len, fill] => {
+                let (len, fill) = (len.parse::<usize>().expect("len"), fill.parse::<u8>().expect("fill"));
+                let Writer::Idle(mut w) = std::mem::replace(&mut p.writer, Writer::Gone) else {
+                    unreachable!()
+                };
+                let item = Bytes::from(vec![fill; len]);
+                p.writer = Writer::Busy(rt.spawn(async move {
+                    let res = w.send_framed(item).await;
+                    (w, res)
+                }));
+                self.settle();
+                match self.reap() {
+                    Some(res) => Self::outcome(res),
+                    None => "pending".into(),
+                }
+            }
+            _ => "bad-op".into(),
+        }
+    }
+
+    fn recv(&mut self) -> String {
+        for _ in 0..1_000_000 {
+            self.settle();
+            let rt = &self.rt;
+            let p = self.pair.as_mut().expect("pair");
+            if p.reader.is_none() {
+                match p.inbound.try_recv() {
+                    Ok(stream) => p.reader = Some(wrap_tcp(stream, p.codec, 2, p.rsink.clone())),
+                    Err(_) => return "pending".into(),
+                }
+            }
+            let before = Self::progress(p);
+            let r = p.reader.as_mut().expect("reader");
+            match rt.block_on(poll_fn(|cx| Poll::Ready(Stream::poll_next(Pin::new(&mut *r), cx)))) {
+                Poll::Ready(None) => return "eof".into(),
+                Poll::Ready(Some(Err(e))) => return format!("err {}", err_class(&e)),
+                Poll::Ready(Some(Ok(frame))) => {
+                    let sum = frame.iter().fold(0u64, |a, b| (a + *b as u64) % 1_000_003);
+                    return format!("frame {} {} {}", frame.len(), frame.first().copied().unwrap_or(0), sum);
+                }
+                Poll::Pending => {}
+            }
+            self.settle();
+            if Self::progress(self.pair.as_ref().expect("pair")) == before {
+                return "pending".into();
+            }
+        }
+        "pending".into()
+    }
+}
+
+impl VerifBox for SubstreamBox {
+    fn step(&mut self, line: &str) -> String {
+        let t: Vec<&str> = line.split_whitespace().collect();
+        let n = |s: &str| s.parse::<usize>().expect("number");
+        if let ["codec", kind, arg, rest @ ..] = t.as_slice() {
+            let codec = match (*kind, *arg) {
+                ("identity", size) => ProtocolCodec::Identity(n(size)),
+                ("varint", "none") => ProtocolCodec::UnsignedVarint(None),
+                ("varint", max) => ProtocolCodec::UnsignedVarint(Some(n(max))),
+                _ => return "bad-op".into(),
+            };
+            let pipe = kv(rest).get("pipe").map(|s| n(s)).unwrap_or(65536);
+            self.open(codec, pipe);
+            return "ok w=0".into();
+        }
+        if self.pair.is_none() {
+            return "bad-op".into();
+        }
+        let w0 = self.pair.as_ref().expect("pair").wsink.outbound();
+        let obs = match t.as_slice() {
+            ["recv"] => self.recv(),
+            ["writer_stop"] => {
+                let p = self.pair.as_mut().expect("pair");
+                if let Writer::Busy(_) = p.writer {
+                    "busy".into()
+                } else {
+                    p.stopped = true;
+                    "ok".into()
+                }
+            }
+            ["send", ..] | ["flush"] | ["wait"] | ["raw", _] | ["close"] => {
+                let obs = self.writer_op(&t);
+                // let the accepted bytes travel as far as they can
+                self.settle();
+                obs
+            }
+            _ => return "bad-op".into(),
+        };
+        let w1 = self.pair.as_ref().expect("pair").wsink.outbound();
+        format!("{obs} w={}", w1 - w0)
+    }
+}
